@@ -172,6 +172,42 @@ def pow_unit(I):
     return {'inputs': {}}
 
 
+def build_unit(I):
+    """FundamentalUnits._build for arbitrary real exponents: an exponent within 1e-7 of an integer is snapped to it,
+    any other exponent is kept as it is (so fractional powers keep their dimension)."""
+    ctx = I.ctx
+    cls = source.module(QTY).classes['FundamentalUnits']
+    pos = ctx.choose([True] * 7, 'position of the symbolic exponent')
+    xs = [I.fresh('x%d' % i, 'real') if i == pos else 0.0 for i in range(7)]
+    out = run_target(I, QTY, 'FundamentalUnits._build', [cls, NDArr((7,), xs)])
+    rounds = dict((x.get_id(), n) for x, n in ctx.ghost.get('rounds', []))
+    thr = z3.RealVal('1/10000000')
+
+    def posts(r):
+        if not (isinstance(r, Obj) and r.cls is cls):
+            return [('returns a FundamentalUnits', z3.BoolVal(False))]
+        es, fl = r.fields['exps'], r.fields['are_floats']
+        ps = []
+        for i, x in enumerate(xs):
+            if i != pos:
+                ps.append(('exponent %d (zero) stays zero' % i, z3.And(z3_of(es.items[i]) == 0, z3.Not(as_bool(fl.items[i])))))
+                continue
+            m = ctx.fresh('near%d' % i, 'int')          # the integer nearest to x_i
+            mr = z3.ToReal(m)
+            ctx.assume(z3.And(mr - z3.RealVal('1/2') <= x, x <= mr + z3.RealVal('1/2')))
+            d = z3.If(x - mr >= 0, x - mr, mr - x)
+            for xx, nn in ctx.ghost.get('rounds', []):
+                if xx.eq(x) or (z3.simplify(xx - x).eq(z3.RealVal(0))):
+                    # proof step (linear real arithmetic): two integers both within 1/2 of x differ by at most 1
+                    ps.append(('lemma: the integer chosen by round() and the nearest integer differ by at most 1',
+                               z3.And(nn - m <= 1, m - nn <= 1)))
+            ps.append(('exponent %d: snapped to the nearest integer iff within 1e-7 of it, else unchanged' % i,
+                       z3.And(z3_of(es.items[i]) == z3.If(d > thr, x, mr), as_bool(fl.items[i]) == (d > thr))))
+        return ps
+    check_outcome(I, out, raises={}, returns=posts)
+    return {'inputs': {}}
+
+
 def replay_qty(model, state, ob):
     """Rebuild the operands with the real classes and re-evaluate the operator."""
     import operator
@@ -237,4 +273,5 @@ UNITS += [
     Unit('GenericQuantity.__truediv__', (QTY, 'GenericQuantity.__truediv__'), muldiv_unit('truediv')),
     Unit('GenericQuantity.__rtruediv__', (QTY, 'GenericQuantity.__rtruediv__'), muldiv_unit('truediv', True)),
     Unit('GenericQuantity.__pow__', (QTY, 'GenericQuantity.__pow__'), pow_unit),
+    Unit('FundamentalUnits._build', (QTY, 'FundamentalUnits._build'), build_unit),
 ]
